@@ -482,6 +482,13 @@ theorem queryG_defined (d : Db) {A B : Int → List Int} (hpl : R A d.pl) (hpe :
   | tracks c => exact bind_unit_defined _ (getForListG_eq d.pe c ▸ walkBackG_defined hpe c)
   | entities l => exact bind_unit_defined _ (getForListG_eq d.pe l ▸ walkBackG_defined hpe l)
   | allTracks => exact Defined.ok _
+  | trackById t => exact Defined.ok _
+  | crateById c => exact Defined.ok _
+  | dbUuid => exact Defined.ok _
+  | dbVersionName => exact Defined.ok _
+  | dbDirectory => exact Defined.ok _
+  | dbVerify => exact Defined.ok _
+  | crateDb c => exact Defined.ok _
 
 /-! ### removed crates are gone -/
 
